@@ -130,6 +130,9 @@ func cmdCheck(args []string) int {
 			rep.trusted = append(rep.trusted, fmt.Sprintf("%s (%s)", key, c.Trusted))
 			continue
 		}
+		if c.IsFuncType {
+			continue
+		}
 		fn := e.P.Funcs[key]
 		if fn == nil {
 			continue // already reported in e.errs
@@ -318,7 +321,7 @@ func finish(e *Engine, rep *checkReport, seed int) int {
 		suffix := " no-failing-input-found"
 		if o.Cover {
 			rp["detail"] = "vacuity guard: the preconditions of this function are unsatisfiable"
-		} else if o.Res.Verdict == "sat" && len(o.Res.Model) > 0 {
+		} else if o.Res.Verdict == "sat" {
 			out, confirmed, cmd := replayOnRealCode(e, o)
 			rp["replay_cmd"] = cmd
 			rp["replay_output"] = out
